@@ -331,3 +331,16 @@ def replay(path_obj):
                   temperature_constraints=rec["temperature_constraints"], f_unc=1.0)
     model, unc, hdd, cdd = dm._predict_submodel(sp, np.array(Ts))
     return oracle(rec, x, Ts, model, hdd, cdd)
+
+LEVEL_TEXT = ("Lean 4 theorems over R about the read path of _predict_submodel: the kernels full_model / get_full_model_x / "
+              "fix_full_model_x / get_smooth_coeffs are re-translated from /repo on every run (py2lean) and proved to refine a "
+              "closed-form curve for every record obeying the sign conventions and every temperature; continuity, flatness, "
+              "monotonicity, linear/asymptotic behaviour and the load identities are theorems about that curve. The composition and "
+              "the translator are tied to the real code by a bit-level differential run on Float.")
+LEVEL_NOTE = ("Trusted: Lean kernel + propext/Classical.choice/Quot.sound; py2lean; hand model of the 20-line composition in "
+              "_predict_submodel (validated by T2 only); reals vs IEEE doubles (oracle tolerances 1e-9 relative, additivity 1e-12). "
+              "Excluded boundary (effective balance points coinciding at/beyond T_max) is known finding C11-F1.")
+TECHNIQUE = "Lean 4 proof (refinement of generated kernel to closed-form spec over R) + differential correspondence"
+ASSUMPTIONS = ["theorems are over exact reals; IEEE rounding is outside them (T2 compares bit patterns / 1e-12)",
+               "NaN/inf temperatures and coefficients are outside the real-number statements",
+               "the composition of the kernels in _predict_submodel is a hand model validated by correspondence only"]
